@@ -1231,14 +1231,14 @@ func (r *RangeEntry) CheckValue(v val.Value) error {
 			return errNotExpectedValue
 		}
 	}
-	if !r.Min.Empty() {
+	if !r.Min.Empty() && !r.Min.isMin {
 		if cmp, err := r.Min.Compare(v); err != nil {
 			return err
 		} else if cmp > 0 {
 			return errOutsideRange
 		}
 	}
-	if !r.Max.Empty() {
+	if !r.Max.Empty() && !r.Max.isMax {
 		if cmp, err := r.Max.Compare(v); err != nil {
 			return err
 		} else if cmp < 0 {
@@ -1322,6 +1322,10 @@ func (n RangeNumber) getFloat64() float64 {
 }
 
 func (n RangeNumber) Compare(v val.Value) (int64, error) {
+	if n.isMin || n.isMax {
+		// only meaningful as the open lower/upper end of a range, see RangeEntry.CheckValue
+		return 0, fmt.Errorf("cannot compare a value with '%s'", n.str)
+	}
 	if v.Format().IsList() {
 		var cmp0 int64
 		var err0 error
